@@ -133,12 +133,24 @@ fn verdict_of(orig: Unimock) -> Value {
 
 type Log = Arc<Mutex<Vec<Value>>>;
 
-/// One execution of `progs` under the schedule prefix `choices` (then always the lowest enabled
-/// thread). Returns (events, number of options at each decision).
-fn execute(progs: &[Vec<String>], choices: &[usize], scheduled: bool, rng: &mut dyn FnMut() -> u64, random: bool) -> (Vec<Value>, Vec<usize>) {
-    let n = progs.len();
-    let orig = conc_mock();
-    let log: Log = Arc::new(Mutex::new(vec![]));
+type Body = Box<dyn FnOnce() + Send>;
+
+/// A thread body calls this when its scheduled part is over: the scheduler stops waiting for it and
+/// its further yield points are no-ops.
+fn leave_schedule() {
+    if let Some(tid) = TID.with(|t| t.get()) {
+        let s = sched();
+        let mut g = s.m.lock().unwrap();
+        g.done[tid] = true;
+        s.cv.notify_all();
+        TID.with(|t| t.set(None));
+    }
+}
+
+/// Run the thread bodies under the schedule prefix `choices` (then always the lowest enabled
+/// thread, or a random one). Returns the number of options at each decision.
+fn run_threads(bodies: Vec<Body>, choices: &[usize], scheduled: bool, rng: &mut dyn FnMut() -> u64, random: bool) -> Vec<usize> {
+    let n = bodies.len();
     {
         let mut g = sched().m.lock().unwrap();
         g.parked = vec![false; n];
@@ -146,28 +158,13 @@ fn execute(progs: &[Vec<String>], choices: &[usize], scheduled: bool, rng: &mut 
         g.turn = None;
     }
     let mut handles = vec![];
-    for (tid, prog) in progs.iter().enumerate() {
-        let u = orig.clone();
-        let prog = prog.clone();
-        let log = log.clone();
+    for (tid, body) in bodies.into_iter().enumerate() {
         handles.push(std::thread::spawn(move || {
             if scheduled {
                 TID.with(|t| t.set(Some(tid)));
             }
-            for kind in &prog {
-                yield_now("begin");
-                log.lock().unwrap().push(json!({"ev": "begin", "t": tid + 1, "k": kind}));
-                let out = do_call(&u, kind);
-                log.lock().unwrap().push(json!({"ev": "end", "t": tid + 1, "out": out}));
-            }
-            drop(u);
-            if scheduled {
-                let s = sched();
-                let mut g = s.m.lock().unwrap();
-                g.done[tid] = true;
-                s.cv.notify_all();
-                TID.with(|t| t.set(None));
-            }
+            body();
+            leave_schedule();
         }));
     }
     let mut options = vec![];
@@ -199,8 +196,86 @@ fn execute(progs: &[Vec<String>], choices: &[usize], scheduled: bool, rng: &mut 
     for h in handles {
         let _ = h.join();
     }
+    options
+}
+
+/// One execution of call programs on clones of the fixed mock.
+fn execute(progs: &[Vec<String>], choices: &[usize], scheduled: bool, rng: &mut dyn FnMut() -> u64, random: bool) -> (Vec<Value>, Vec<usize>) {
+    let orig = conc_mock();
+    let log: Log = Arc::new(Mutex::new(vec![]));
+    let mut bodies: Vec<Body> = vec![];
+    for (tid, prog) in progs.iter().enumerate() {
+        let u = orig.clone();
+        let prog = prog.clone();
+        let log = log.clone();
+        bodies.push(Box::new(move || {
+            for kind in &prog {
+                yield_now("begin");
+                log.lock().unwrap().push(json!({"ev": "begin", "t": tid + 1, "k": kind}));
+                let out = do_call(&u, kind);
+                log.lock().unwrap().push(json!({"ev": "end", "t": tid + 1, "out": out}));
+            }
+            drop(u);
+        }));
+    }
+    let options = run_threads(bodies, choices, scheduled, rng, random);
     let mut ev = std::mem::take(&mut *log.lock().unwrap());
     ev.push(json!({"ev": "verify", "v": verdict_of(orig)}));
+    (ev, options)
+}
+
+/// One execution of concurrent make_ref programs (progs[t] = number of values thread t lends)
+/// through one shared instance.
+fn execute_chain(progs: &[Vec<String>], choices: &[usize], scheduled: bool, rng: &mut dyn FnMut() -> u64, random: bool) -> (Vec<Value>, Vec<usize>) {
+    let shared = Arc::new(Unimock::new(()));
+    let log: Log = Arc::new(Mutex::new(vec![]));
+    let gate = Arc::new(std::sync::Barrier::new(progs.len()));
+    let mut ids: Vec<u32> = vec![];
+    let mut bodies: Vec<Body> = vec![];
+    // phase 1: all pushes; phase 2 (after join): re-reads happen inside the same thread body after a
+    // second scheduling point, so that every reference is re-read after everybody has finished pushing
+
+    for (tid, prog) in progs.iter().enumerate() {
+        let u = shared.clone();
+        let log = log.clone();
+        let gate = gate.clone();
+        let k = prog.len() as u32;
+        for j in 1..=k {
+            let id = 3000 + (tid as u32 + 1) * 10 + j;
+            ids.push(id);
+            reset_id(id);
+        }
+        bodies.push(Box::new(move || {
+            let mut refs: Vec<(&Val, u32)> = vec![];
+            for j in 1..=k {
+                let id = 3000 + (tid as u32 + 1) * 10 + j;
+                yield_now("begin");
+                log.lock().unwrap().push(json!({"ev": "push", "t": tid + 1, "id": id}));
+                let r: &Val = u.make_ref(Val::new(id));
+                log.lock().unwrap().push(json!({"ev": "got", "t": tid + 1, "id": id, "read": r.id}));
+                refs.push((r, id));
+                // references obtained earlier must be unaffected by whatever was lent meanwhile
+                if let Some((r0, id0)) = refs.iter().find(|(r, id)| r.id != *id) {
+                    log.lock().unwrap().push(json!({"ev": "got", "t": tid + 1, "id": id0, "read": r0.id}));
+                }
+            }
+            // everybody finishes pushing first (outside the schedule), then every reference is read again
+            leave_schedule();
+            gate.wait();
+            let reads: Vec<u32> = refs.iter().map(|(r, _)| r.id).collect();
+            log.lock().unwrap().push(json!({"ev": "reread", "t": tid + 1, "reads": reads}));
+            drop(refs);
+            drop(u);
+        }));
+    }
+    let options = run_threads(bodies, choices, scheduled, rng, random);
+    let mut ev = std::mem::take(&mut *log.lock().unwrap());
+    let before: Vec<u32> = ids.iter().copied().filter(|id| drops0(*id) > 0).collect();
+    let last = Arc::try_unwrap(shared).ok().expect("harness: shared instance still referenced");
+    let _ = catch_unwind(AssertUnwindSafe(move || drop(last)));
+    let after: Vec<u32> = ids.iter().copied().filter(|id| drops0(*id) > 0).collect();
+    let twice: Vec<u32> = ids.iter().copied().filter(|id| drops0(*id) > 1).collect();
+    ev.push(json!({"ev": "drops", "before": before, "after": after, "twice": twice}));
     (ev, options)
 }
 
@@ -219,6 +294,7 @@ pub fn run_conc(spec_path: &str, trace_path: &str, summary_path: &str) -> i32 {
         seed
     };
     let hook_ok = install();
+    let chain = spec["kind"].as_str() == Some("chain");
     let mut out = std::io::BufWriter::new(std::fs::File::create(trace_path).expect("trace file"));
     let mut x = 0u64;
     let mut per_prog = vec![];
@@ -232,7 +308,7 @@ pub fn run_conc(spec_path: &str, trace_path: &str, summary_path: &str) -> i32 {
             "dfs" => {
                 let mut choices: Vec<usize> = vec![];
                 loop {
-                    let (ev, options) = execute(&progs, &choices, true, &mut rng, false);
+                    let (ev, options) = if chain { execute_chain(&progs, &choices, true, &mut rng, false) } else { execute(&progs, &choices, true, &mut rng, false) };
                     x += 1;
                     n_exec += 1;
                     writeln!(out, "{}", json!({"ev": "reset", "x": x})).unwrap();
@@ -266,7 +342,7 @@ pub fn run_conc(spec_path: &str, trace_path: &str, summary_path: &str) -> i32 {
             "random" | "free" => {
                 complete = false;
                 for _ in 0..runs {
-                    let (ev, _) = execute(&progs, &[], mode == "random", &mut rng, true);
+                    let (ev, _) = if chain { execute_chain(&progs, &[], mode == "random", &mut rng, true) } else { execute(&progs, &[], mode == "random", &mut rng, true) };
                     x += 1;
                     n_exec += 1;
                     writeln!(out, "{}", json!({"ev": "reset", "x": x})).unwrap();
